@@ -88,6 +88,199 @@ def strlit_edits(src, m, a, b, skip_spans):
         res.append((st, en2, rep))
     return res
 
+R33_NAMES = ('map_or', 'map', 'and_then', 'filter', 'or_else', 'unwrap_or_else', 'is_some_and')
+
+def _r33_recv_start(m, dot):
+    """start offset of the postfix expression that ends just before the `.` at offset dot (method-call receiver)"""
+    k = dot - 1
+    progressed = False
+    while k >= 0:
+        ch = m[k]
+        if ch.isspace():
+            # cross white space only inside a method chain: what follows the space (already accepted) starts with '.'
+            j = k
+            while j >= 0 and m[j].isspace(): j -= 1
+            nxt = k + 1
+            while nxt < dot and m[nxt].isspace(): nxt += 1
+            if j >= 0 and (m[nxt] == '.' or nxt == dot) and (m[j].isalnum() or m[j] in '_)]?'):
+                k = j; continue
+            break
+        if ch in ')]':
+            depth = 0; j = k
+            while j >= 0:
+                if m[j] in ')]}': depth += 1
+                elif m[j] in '([{':
+                    depth -= 1
+                    if depth == 0: break
+                j -= 1
+            if j < 0: return None
+            k = j - 1; progressed = True; continue
+        if ch.isalnum() or ch == '_':
+            while k >= 0 and (m[k].isalnum() or m[k] == '_'): k -= 1
+            progressed = True; continue
+        if ch == '.' or ch == '?' or ch == '!':
+            k -= 1; continue
+        if ch == ':' and k >= 1 and m[k - 1] == ':':
+            k -= 2; continue
+        break
+    if not progressed: return None
+    st = k + 1
+    while st < dot and m[st].isspace(): st += 1
+    # a receiver that starts with a keyword is not a receiver
+    if re.match(r'(return|if|else|match|let|in|as|mut|move|while|for)\b', m[st:dot]): return None
+    return st
+
+def _r33_split_args(src, m):
+    args = []; depth = 0; cur = 0
+    for j, ch in enumerate(m):
+        if ch in '([{': depth += 1
+        elif ch in ')]}': depth -= 1
+        elif ch == ',' and depth == 0:
+            args.append((cur, j)); cur = j + 1
+        elif ch == '|' and depth == 0 and not args and False:
+            pass
+    if src[cur:].strip(): args.append((cur, len(src)))
+    return args
+
+def r33_desugar(text, counter):
+    """rule R33: inline the std Option combinators that take a closure (definitions as in core::option), repeatedly,
+    until none is left in `text`.  Returns (new_text, number_of_rewrites) or raises ValueError when a call site does
+    not have the expected shape (the caller then leaves the text alone)."""
+    n_done = 0
+    guard = 0
+    pos0 = 0
+    while True:
+        guard += 1
+        if guard > 40: raise ValueError('too many combinators')
+        mm = rustscan.mask(text)
+        hit = None
+        for mo in re.finditer(r'\.\s*(%s)\s*\(' % '|'.join(R33_NAMES), mm):
+            if mo.start() < pos0: continue
+            po = mo.end() - 1
+            pc = rustscan.match_close(mm, po)
+            inner_s, inner_m = text[po + 1:pc], mm[po + 1:pc]
+            # split arguments at top-level commas; a closure's own `|a, b|` parameter list is protected below
+            prot = list(inner_m)
+            bar = [i for i, c in enumerate(inner_m) if c == '|']
+            depth = 0; bars = []
+            for i, c in enumerate(inner_m):
+                if c in '([{': depth += 1
+                elif c in ')]}': depth -= 1
+                elif c == '|' and depth == 0: bars.append(i)
+            if len(bars) >= 2 and inner_m[bars[0]:bars[1] + 1].count(',') > 0:
+                for i in range(bars[0], bars[1] + 1):
+                    if prot[i] == ',': prot[i] = ';'
+            args = _r33_split_args(inner_s, ''.join(prot))
+            if not args: continue
+            la, lb = args[-1]
+            cm = re.match(r'^\s*(?:move\s+)?\|([^|]*)\|\s*(.*?)\s*$', inner_s[la:lb], flags=re.S)
+            cmm = re.match(r'^\s*(?:move\s+)?\|([^|]*)\|\s*(.*?)\s*$', inner_m[la:lb], flags=re.S)
+            if not cm or not cmm: continue
+            body_m = cmm.group(2)
+            if re.search(r'\breturn\b|\?', body_m) or body_m.startswith('->'): continue
+            hit = (mo, po, pc, args, cm, inner_s); break
+        if hit is None:
+            return text, n_done
+        mo, po, pc, args, cm, inner_s = hit
+        name = mo.group(1)
+        dot = mo.start()
+        st = _r33_recv_start(mm, dot)
+        if st is None: raise ValueError('receiver of .%s not recognised' % name)
+        recv = text[st:dot].strip()
+        params = cm.group(1).strip(); body = cm.group(2).strip()
+        if ':' in params or '_' == params: raise ValueError('typed or wildcard closure parameter')
+        other = [inner_s[a_:b_].strip() for a_, b_ in args[:-1]]
+        counter[0] += 1; k = counter[0]
+        v = 'r33_v%d' % k
+        o = 'crate::shim::opt_id(%s)' % recv
+        if name == 'map' and not other and params:
+            rep = '(match %s { Some(%s) => Some(%s), None => None })' % (o, params, body)
+        elif name == 'map_or' and len(other) == 1 and params:
+            rep = '({ let r33_s%d = %s; let r33_d%d = %s; match r33_s%d { Some(%s) => %s, None => r33_d%d } })' % (k, o, k, other[0], k, params, body, k)
+        elif name == 'and_then' and not other and params:
+            rep = '(match %s { Some(%s) => %s, None => None })' % (o, params, body)
+        elif name == 'filter' and not other and params:
+            rep = '(match %s { Some(%s) => { let r33_k%d = { let %s = &%s; %s }; if r33_k%d { Some(%s) } else { None } }, None => None })' % (o, v, k, params, v, body, k, v)
+        elif name == 'or_else' and not other and not params:
+            rep = '(match %s { Some(%s) => Some(%s), None => %s })' % (o, v, v, body)
+        elif name == 'unwrap_or_else' and not other and not params:
+            rep = '(match %s { Some(%s) => %s, None => %s })' % (o, v, v, body)
+        elif name == 'is_some_and' and not other and params:
+            rep = '(match %s { Some(%s) => %s, None => false })' % (o, params, body)
+        else:
+            raise ValueError('.%s with an unexpected argument list' % name)
+        text = text[:st] + rep + text[pc + 1:]
+        n_done += 1
+        pos0 = 0
+
+def combinator_edits(src, m, a, b):
+    """rule R33 on the body text src[a:b]: statements that contain an Option combinator with a closure argument are
+    replaced as a whole (from the start of the outermost receiver to the end of the call chain).  Returns
+    [(start, end, replacement, count)]."""
+    res = []
+    counter = [0]
+    pos = a
+    while True:
+        mo = re.compile(r'\.\s*(%s)\s*\(' % '|'.join(R33_NAMES)).search(m, pos, b)
+        if not mo: break
+        po = mo.end() - 1
+        pc = rustscan.match_close(m, po)
+        # does the call have a closure argument?
+        if not re.search(r'(^|[(,])\s*(move\s+)?\|', m[po:pc]):
+            pos = mo.end(); continue
+        st = _r33_recv_start(m, mo.start())
+        if st is None:
+            pos = mo.end(); continue
+        # extend over the rest of the method chain
+        en = pc + 1
+        while True:
+            mo2 = re.compile(r'\s*(\?)?\s*\.\s*[A-Za-z_][A-Za-z0-9_]*\s*(::<[^>]*>)?\s*\(').match(m, en)
+            if mo2:
+                en = rustscan.match_close(m, mo2.end() - 1) + 1; continue
+            mo3 = re.compile(r'\s*\?').match(m, en)
+            if mo3 and mo3.end() > en and m[mo3.end() - 1] == '?':
+                en = mo3.end(); continue
+            break
+        seg = src[st:en]
+        try:
+            new, cnt = r33_desugar(seg, counter)
+        except (ValueError, rustscan.ScanError):
+            pos = en; continue
+        if cnt:
+            new = ' '.join(new.split()) if False else new
+            missing = seg.count('\n') - new.count('\n')
+            if missing < 0:
+                new = ' '.join(new.split()); missing = seg.count('\n')
+            res.append((st, en, new + '\n' * missing, cnt))
+        pos = en
+    return res
+
+def closure_starts(m, a, b):
+    """offsets of the opening `|` of every closure expression in m[a:b] (same recognition as rule R32)"""
+    res = []
+    i = a
+    while True:
+        k = m.find('|', i, b)
+        if k < 0: break
+        i = k + 1
+        j0 = k - 1
+        while j0 >= a and m[j0].isspace(): j0 -= 1
+        prev = m[j0] if j0 >= a else '('
+        mv = m[max(a, j0 - 3):j0 + 1] == 'move'
+        if not (prev in '(,=' or mv):
+            if m[k + 1:k + 2] == '|': i = k + 2
+            continue
+        if m[k + 1:k + 2] == '|':
+            pend = k + 1
+        else:
+            pend = m.find('|', k + 1, b)
+            if pend < 0: break
+            if not re.match(r'^[A-Za-z0-9_&,():<>\s\[\]\'\*]*$', m[k + 1:pend]):
+                continue
+        res.append(k)
+        i = pend + 1
+    return res
+
 def closure_edits(src, m, a, b, skip_spans):
     """rule R32: an expression closure `|params| EXPR` (body not a block) gets the postcondition "the result is EXPR":
     `|params| -> (r32: _) ensures equal(r32, EXPR) { EXPR }`.  Verus checks the postcondition against the body, so no
@@ -136,8 +329,8 @@ def closure_edits(src, m, a, b, skip_spans):
             i = pend + 1
             continue
         expr = ' '.join(src[q:body_end].split())
-        res.append((pend + 1, ' -> (r32: _) ensures equal(r32, ' + expr + ') {'))
-        res.append((body_end, ' }'))
+        res.append((pend + 1, ' -> (r32: _) ensures equal(r32, ' + expr + ') {', k))
+        res.append((body_end, ' }', None))
         i = body_end
     return res
 
@@ -488,7 +681,7 @@ class Unit:
         # loop contracts are keyed by loop ordinal: if the number of loops in the body differs from the number the
         # contracts were written against (contracts/loop_counts.json), an ordinal may now name a different loop and
         # its invariants would be checked against the wrong loop -- undecided, never a failed obligation
-        if c and (c.loops or getattr(c, 'loopbodies', None) or getattr(c, 'loopends', None) or getattr(c, 'loppres', None)):
+        if c and (c.loops or getattr(c, 'loopbodies', None) or getattr(c, 'loopends', None) or getattr(c, 'loppres', None) or getattr(c, 'loopafters', None)):
             lc = getattr(self, '_loop_counts', None)
             if lc is None:
                 try: lc = json.load(open(os.path.join(self.verif, 'contracts', 'loop_counts.json')))
@@ -530,6 +723,12 @@ class Unit:
                 kw, k, q = loops[n - 1]
                 qc = rustscan.match_close(m, q)
                 edits.append((qc, 0, [('\n', ('gen', None, 0))] + [(t + '\n', ('vspec', blk.file, no)) for t, no in blk.lines]))
+            for n, blk in getattr(c, 'loopafters', {}).items():
+                if n < 1 or n > len(loops):
+                    raise LostAnchor('%s: contract names loop %d but the body has %d loops' % (disp, n, len(loops)))
+                kw, k, q = loops[n - 1]
+                qc = rustscan.match_close(m, q)
+                edits.append((qc + 1, 0, [('\n', ('gen', None, 0))] + [(t + '\n', ('vspec', blk.file, no)) for t, no in blk.lines]))
             for where, rx, blk in c.anchors:
                 # statement line matching regex (unique) inside the body
                 body = src[bo:be]
@@ -604,11 +803,6 @@ class Unit:
             self.report['rewrites'].append({'rule': 'R8', 'file': repo_file, 'line': line(st_), 'before': src[st_:en_][:60], 'after': rep_[:80]})
             self.fmt_pieces = getattr(self, 'fmt_pieces', {})
             self.fmt_pieces.setdefault(disp, []).append(pieces_)
-        if mode == 'verify':
-            rew_spans = [(o_, o_ + d_) for (o_, d_, _) in edits if d_ > 0] + fmt_spans
-            for off_, txt_ in closure_edits(src, m, bo, item.end, rew_spans):
-                edits.append((off_, 0, [(txt_, ('gen', None, 0))]))
-                self.report['rewrites'].append({'rule': 'R32', 'file': repo_file, 'line': line(off_), 'before': '', 'after': txt_[:100]})
         if c and getattr(c, 'strbytes', False):
             for st_, en_, rep_ in strlit_edits(src, m, bo, item.end, fmt_spans):
                 edits.append((st_, en_ - st_, [(rep_, ('repo', repo_file, line(st_)))]))
@@ -617,6 +811,41 @@ class Unit:
             if any(a_ <= st_ < b_ for a_, b_ in fmt_spans): continue
             edits.append((st_, en_ - st_, [(rep_, ('repo', repo_file, line(st_)))]))
             self.report['rewrites'].append({'rule': 'R20', 'file': repo_file, 'line': line(st_), 'before': src[st_:en_][:40], 'after': rep_[:40]})
+        if mode == 'verify':
+            # rule R33 (inline Option combinators with closure arguments); edits of other rules that lie entirely inside
+            # the rewritten expression are applied to its text first
+            for st_, en_, _rep0, _cnt0 in combinator_edits(src, m, bo, item.end):
+                inner = [e_ for e_ in edits if e_[1] > 0 and st_ <= e_[0] and e_[0] + e_[1] <= en_]
+                clash = [e_ for e_ in edits if e_ not in inner and ((e_[1] > 0 and e_[0] < en_ and st_ < e_[0] + e_[1]) or (e_[1] == 0 and st_ < e_[0] < en_))]
+                if clash:
+                    continue
+                seg = src[st_:en_]
+                for e_ in sorted(inner, key=lambda e: -e[0]):
+                    seg = seg[:e_[0] - st_] + ''.join(t_ for t_, _ in e_[2]) + seg[e_[0] - st_ + e_[1]:]
+                try:
+                    rep_, cnt_ = r33_desugar(seg, [0])
+                except (ValueError, rustscan.ScanError):
+                    continue
+                if not cnt_:
+                    continue
+                missing = src[st_:en_].count('\n') - rep_.count('\n')
+                if missing < 0:
+                    rep_ = ' '.join(rep_.split()); missing = src[st_:en_].count('\n')
+                for e_ in inner: edits.remove(e_)
+                edits.append((st_, en_ - st_, [(rep_ + '\n' * missing, ('repo', repo_file, line(st_)))]))
+                self.report['rewrites'].append({'rule': 'R33', 'file': repo_file, 'line': line(st_), 'before': src[st_:en_][:100], 'after': rep_[:160]})
+            rew_spans = [(o_, o_ + d_) for (o_, d_, _) in edits if d_ > 0]
+            annotated = set()
+            for off_, txt_, k_ in closure_edits(src, m, bo, item.end, rew_spans):
+                edits.append((off_, 0, [(txt_, ('gen', None, 0))]))
+                if k_ is not None: annotated.add(k_)
+                self.report['rewrites'].append({'rule': 'R32', 'file': repo_file, 'line': line(off_), 'before': '', 'after': txt_[:100]})
+            # a closure that is left without a postcondition would make the callee's specification say nothing about
+            # the result: undecided, never a failed obligation
+            for k_ in closure_starts(m, bo, item.end):
+                if k_ in annotated or any(x <= k_ < y for x, y in rew_spans):
+                    continue
+                raise LostAnchor('%s: closure at line %d is outside the accepted subset (block body or not rewritable): its postcondition is unknown' % (disp, line(k_)))
         edits.sort(key=lambda e: (e[0], e[1]))
         # an insertion strictly inside a replaced region cannot be honoured
         for i, (off, dl, ins) in enumerate(edits):
